@@ -34,6 +34,7 @@ void generate(sim::Rng &r, uint64_t seed, const std::string &tier, sim::Plan &p)
   p.cfg["sem0"] = r.range(0, 2);
   p.cfg["sem1"] = r.range(0, 1);
   p.cfg["cond_any"] = r.below(2);
+  p.cfg["early_cleanup"] = r.chance(200) ? 1 : 0;     // cleanup() right after the last main operation, while the routines it woke are ready but have not run
   long nr = r.range(2, NR);
   // a few "themes" make the interesting collisions likely: several waiters on one primitive + bursts of releases
   long theme = (long)r.below(5);    // 0 mixed, 1 semaphore, 2 channel, 3 mutex, 4 broadcast/condition/join
@@ -98,7 +99,7 @@ struct World {
   std::vector<int> bc_must_return;   // routines that were waiting when a post happened and have not returned yet
   // condition model
   std::set<int> cm_conds; int cm_waiter = -1; bool cm_any = false, cm_poisoned = false; std::vector<int> cm_must_return;
-  bool cleaning = false;
+  bool cleaning = false, cleanup_success_reported = false, cleaned_early = false;
   long quiescence_checks = 0;
 };
 World W;
@@ -198,6 +199,10 @@ void routine_body(int r, Scheduler &sch) {
       }
       case S_CPOST: cond_post_model((int)a); W.cond->post((int)a); break;
     }
+    if (ok && W.cleaning && (kind == S_YIELD || kind == S_WAIT || kind == S_RECV || kind == S_LOCK || kind == S_ACQUIRE || kind == S_BWAIT || kind == S_JOIN || kind == S_CWAIT) && !W.cleanup_success_reported) {
+      W.cleanup_success_reported = true;
+      sim::violation("C18/blocking-call-succeeds-during-cleanup", sim::fmt("R%d: %s returned success after Scheduler::cleanup() had begun", r, SN[kind]));
+    }
     if (!ok) {
       // a blocking call reported failure: only legal after cancel/cleanup
       if (!me.cancel_sent && !W.cleaning) sim::violation("C18/blocking-call-failed-without-cancel", sim::fmt("R%d: %s returned failure although the routine was neither cancelled nor cleaned up", r, SN[kind]));
@@ -271,12 +276,16 @@ void execute(const sim::Plan &plan) {
   static drv::Timeline tl;
   tl = drv::Timeline();
   int64_t t = sim::now_ns() + 1000000;
+  size_t last_mn = plan.ops.size();
+  for (size_t i = 0; i < plan.ops.size(); ++i) if (plan.ops[i].kind == "mn") last_mn = i;
+  bool early = plan.get("early_cleanup") != 0;
   for (size_t i = 0; i < plan.ops.size(); ++i) {
     const sim::Op *op = &plan.ops[i];
     if (op->kind != "mn") continue;
     t += std::max(0L, std::min(50L, op->arg(0))) * 1000000;
-    tl.at(t, [op] {
-      W.loop->runInLoop([op] {
+    bool cleanup_after = early && i == last_mn;
+    tl.at(t, [op, cleanup_after] {
+      W.loop->runInLoop([op, cleanup_after] {
         int kind = (int)(((op->arg(1) % S_NSTEP) + S_NSTEP) % S_NSTEP); long a = std::max(0L, op->arg(2));
         sim::trace("main %s %ld", SN[kind], a);
         sim::relevant();
@@ -291,6 +300,14 @@ void execute(const sim::Plan &plan) {
           case S_CREATE: { int r = (int)(a % NR); if (W.rs[r].defined && !W.rs[r].created) create_routine(r, true); break; }
           default: break;
         }
+        if (cleanup_after && !W.cleaned_early) {
+          // cleanup() while the routines woken by this very operation are ready but have not run yet
+          W.cleaned_early = true; W.cleaning = true;
+          sim::trace("early cleanup");
+          sim::probe("early_cleanups");
+          W.sch->cleanup();
+          for (int r = 0; r < NR; ++r) if (W.rs[r].started && !W.rs[r].finished) { sim::violation("C18/routine-alive-after-cleanup", sim::fmt("R%d was started and has not terminated after Scheduler::cleanup()", r)); break; }
+        }
       }, "c18.main");
     }, (int)i);
   }
@@ -304,7 +321,7 @@ void execute(const sim::Plan &plan) {
 
   // cancel / cleanup: every started routine returns from its blocking call with failure and terminates
   W.cleaning = true;
-  W.sch->cleanup();
+  if (!W.cleaned_early) W.sch->cleanup();
   for (int r = 0; r < NR; ++r) {
     RState &s = W.rs[r];
     if (s.started && !s.finished) sim::violation("C18/routine-alive-after-cleanup", sim::fmt("R%d was started and has not terminated after Scheduler::cleanup()", r));
